@@ -375,3 +375,35 @@ func init() {
 		sa.report(r, "X16")
 	})
 }
+
+func init() {
+	register("X08", func(w *World, r *Report, tier string) {
+		sa := runEntries(w, r, securityEntries(w, r))
+		sa.report(r, "X08")
+	})
+}
+
+// securityEntries: NASEncrypt / NASMacCalculate with arbitrary parameters and a payload of
+// arbitrary content whose length is at most 2^24 octets (so that 8*len fits the uint32 bit length).
+func securityEntries(w *World, r *Report) []entrySpec {
+	var out []entrySpec
+	for _, n := range []string{"NASEncrypt", "NASMacCalculate"} {
+		f := w.LookupFunc("security", n)
+		if f == nil {
+			r.Fail("anchor", "security."+n, "missing", token.NoPos, "entry point not found", nil)
+			continue
+		}
+		out = append(out, entrySpec{Fn: f, Name: FuncName(f), Args: func(sa *Safe, fr *frame, st *State, fn *ssa.Function) []AVal {
+			var args []AVal
+			for _, p := range fn.Params {
+				a := anyArg(sa, fr, st, p.Type(), p.Name())
+				if a.Kind == avSlice && a.Len != nil {
+					st.itv[onlyAtom(a.Len)] = Itv{0, 1 << 24}
+				}
+				args = append(args, a)
+			}
+			return args
+		}})
+	}
+	return out
+}
